@@ -98,12 +98,14 @@ int read_and_compare(EclIO::ERst& rst, int step, const Arr& a, Hash64& h, std::s
     return 0;
 }
 
-struct ImageStats { long opened = 0, open_threw = 0, arrays_exact = 0, arrays_threw = 0, steps_seen = 0; };
+struct ImageStats { long opened = 0, open_threw = 0, arrays_exact = 0, arrays_threw = 0, steps_seen = 0, steps_unjudged = 0; };
 
 // Crash oracle on one image.  `accept[s]` = payloads that the history may legitimately have left at step s.
 // Returns "" or a violation sub-class; detail in `why`.
+// `judge_below`: only steps smaller than this are judged (crash_continue: a new process appended to a torn file; the
+// statement promises nothing about steps at or above the torn one, so they are read - memory safety - but not judged).
 std::string check_crash_image(const std::string& file, const std::map<int, std::vector<const Payload*>>& accept,
-                              ImageStats& st, Hash64& h, std::string& why) {
+                              ImageStats& st, Hash64& h, std::string& why, int judge_below = 1 << 30) {
     std::unique_ptr<EclIO::ERst> rst;
     try { rst = std::make_unique<EclIO::ERst>(file); }
     catch (const std::exception&) { ++st.open_threw; h.u64(0xdead); return ""; }
@@ -111,6 +113,7 @@ std::string check_crash_image(const std::string& file, const std::map<int, std::
     std::vector<int> steps = rst->listOfReportStepNumbers();
     for (size_t k = 0; k < steps.size(); ++k) {
         h.u64(static_cast<std::uint64_t>(steps[k]));
+        if (steps[k] >= judge_below) continue;
         if (k && steps[k] <= steps[k - 1]) { why = "report steps not strictly increasing"; return "steps_order"; }
         if (!accept.count(steps[k])) { why = "step " + std::to_string(steps[k]) + " listed but never written"; return "phantom_step"; }
     }
@@ -118,6 +121,12 @@ std::string check_crash_image(const std::string& file, const std::map<int, std::
         ++st.steps_seen;
         std::vector<EclIO::EclFile::EclEntry> list;
         try { list = rst->listOfRstArrays(s); } catch (const std::exception&) { continue; }
+        if (s >= judge_below || !accept.count(s)) {
+            // not judged: exercise the read paths only
+            for (auto& e : list) { try { if (std::get<1>(e) == EclIO::INTE) { auto& v = rst->getRestartData<int>(std::get<0>(e), s, 0); h.u64(v.size()); } } catch (const std::exception&) {} }
+            ++st.steps_unjudged;
+            continue;
+        }
         std::vector<const Payload*> cands = accept.at(s);
         // the listed arrays must be a prefix of SEQNUM + payload arrays of at least one candidate
         for (size_t k = 0; k < list.size(); ++k) {
@@ -347,7 +356,8 @@ struct C08 : Scenario {
                 for (auto& kv : pre) accept[kv.first].push_back(&kv.second);
                 accept[pay[last].step].push_back(&pay[last]);
             } else {
-                for (auto& p : pay) accept[p.step].push_back(&p);
+                // crash_continue: only the steps below the in-flight one are judged; their bytes were complete before the crash
+                for (auto& kv : pre) if (kv.first < pay[last].step) accept[kv.first].push_back(&kv.second);
             }
             // syscalls of the in-flight write, measured on the fault-free twin (op index == write index)
             const long sites = fs::mut_calls(static_cast<int>(last));
@@ -400,7 +410,7 @@ struct C08 : Scenario {
                     if (!stopped && last + 1 < pay.size()) ++r.counters["probe.crash.continued_on_image"];
                 }
                 std::string why;
-                std::string sub = check_crash_image("B/" + file, accept, st, oh, why);
+                std::string sub = check_crash_image("B/" + file, accept, st, oh, why, mode == "crash_continue" ? pay[last].step : (1 << 30));
                 if (!sub.empty()) {
                     std::ostringstream o; o << mode << ": in-flight write #" << last << " (step " << pay[last].step << ") killed at mutating call " << site.nth << " (" << site.kind << ", arg " << site.arg << "): " << why;
                     r.fail("C08.crash." + sub, o.str());
@@ -437,6 +447,7 @@ struct C08 : Scenario {
             }
         }
         r.counters["img.opened"] = st.opened; r.counters["img.open_threw"] = st.open_threw;
+        r.counters["img.steps_not_judged"] = st.steps_unjudged;
         r.counters["img.arrays_exact"] = st.arrays_exact; r.counters["img.arrays_threw"] = st.arrays_threw;
         for (auto& kv : fs::counters()) r.counters[kv.first] += kv.second;
         Hash64 fin; fin.u64(fs::log_hash()); fin.u64(oh.h);
